@@ -10,9 +10,19 @@ fn main() {
     }
     let text = std::fs::read_to_string(&args[2]).expect("values file");
     basic::vk::load(&text);
-    if !basic::verif_dispatch(&args[1]) {
-        eprintln!("unknown harness {}", args[1]);
-        std::process::exit(5);
+    let name = args[1].clone();
+    // the bounded container models keep everything inline: run on a thread with a very large stack
+    let t = std::thread::Builder::new().stack_size(8 << 30).spawn(move || basic::verif_dispatch(&name)).expect("spawn");
+    match t.join() {
+        Ok(true) => {}
+        Ok(false) => {
+            eprintln!("unknown harness {}", args[1]);
+            std::process::exit(5);
+        }
+        Err(_) => {
+            eprintln!("VK-REPLAY-PANIC (see the panic message above)");
+            std::process::exit(101);
+        }
     }
     println!("VK-REPLAY-DONE {}", args[1]);
 }
